@@ -14,7 +14,7 @@ import (
 func init() {
 	register(&Property{
 		ID:          "C04",
-		Explanation: "Decides one structural necessary condition of 'tree shaking removes only unobservable code': the purity classifier (js_ast ExprCanBeRemovedIfUnused / StmtsCanBeRemovedIfUnused) answers 'removable' unconditionally only for expression and statement kinds in an independent ECMAScript-derived table of effect-free kinds, answers 'removable if the operands are' only for operators that perform no implicit ToPrimitive/ToString/ToNumber and cannot throw, keeps the required guards on ==/!= and relational operators and on templates, and falls back to 'not removable' for everything else. An operator or node kind added to a pure case only makes more code disappear, which snapshot tests cannot distinguish from better tree shaking. R2 (operand coverage) additionally decides, on the SSA control-flow graph of the three judges, that every field of an AST node that can hold evaluated code (enumerated from the type definitions) is judged, found nil/empty or type-tested on every path that reaches a 'removable' answer or the next loop iteration; a child skipped under some condition (e.g. a destructuring default that is not examined when the initialiser has an element at that index) is reported with the path. R4 shared-ast-immutability: the C09/R2 frozen-AST analysis. R5 process-wide-state-immutable: E-GLOB (no store through a value obtained from a package-level variable, shallow copies included, outside the owner's guarded update). R6 glob-wildcard-pretest: globstarToEscapedRegexp answers a constant 'no wildcard' only after excluding every character its scanning loop treats as a wildcard. NOT covered: the liveness traversal, package.json sideEffects, dangling references (graph facts), user annotations.",
+		Explanation: "Decides one structural necessary condition of 'tree shaking removes only unobservable code': the purity classifier (js_ast ExprCanBeRemovedIfUnused / StmtsCanBeRemovedIfUnused) answers 'removable' unconditionally only for expression and statement kinds in an independent ECMAScript-derived table of effect-free kinds, answers 'removable if the operands are' only for operators that perform no implicit ToPrimitive/ToString/ToNumber and cannot throw, keeps the required guards on ==/!= and relational operators and on templates, and falls back to 'not removable' for everything else. An operator or node kind added to a pure case only makes more code disappear, which snapshot tests cannot distinguish from better tree shaking. R2 (operand coverage) additionally decides, on the SSA control-flow graph of the three judges, that every field of an AST node that can hold evaluated code (enumerated from the type definitions) is judged, found nil/empty or type-tested on every path that reaches a 'removable' answer or the next loop iteration; a child skipped under some condition (e.g. a destructuring default that is not examined when the initialiser has an element at that index) is reported with the path. R4 shared-ast-immutability: the C09/R2 frozen-AST analysis. R5 process-wide-state-immutable: E-GLOB (no store through a value obtained from a package-level variable, shallow copies included, outside the owner's guarded update). R6 glob-wildcard-pretest: globstarToEscapedRegexp answers a constant 'no wildcard' only after excluding every character its scanning loop treats as a wildcard. R7 date-argument-purity-table (shared with C01/R10). R8 inlined-calls-match-counted-calls: no flag look-up feeding an IsEmptyFunction/IsIdentityFunction test in js_printer reads ECall.OptionalChain. NOT covered: the liveness traversal, package.json sideEffects, dangling references (graph facts), user annotations.",
 		Run: func(p *Prog, tier string) []*RuleResult {
 			return []*RuleResult{c04PurityTable(p), c04OperandCoverage(p), renamed(c03PrimitiveTransfer(p), "C04/R3 primitive-type-transfer", "the removal judges trust KnownPrimitiveType != Unknown to mean 'ToString/ToPrimitive cannot run user code' (template substitutions, relational operators, ==): every row of its behaviour table must over-approximate the ECMAScript type-transfer function (same analysis as C03/R3)"), renamed(c09Frozen(p), "C04/R4 shared-ast-immutability", "tree shaking decides liveness per link on ASTs shared with other links and later rebuilds: substituting references to (possibly removed) declarations into shared AST memory leaves the next link with code that refers to bindings it tree-shook away (same analysis as C09/R2)"), globalSharedImmutability(p, "C04/R5 process-wide-state-immutable"), c04GlobWildcardPretest(p), dateArgumentPurity(p, "C04/R7 date-argument-purity-table"), c04InlinedCallsMatchCounted(p)}
 		},
